@@ -51,7 +51,7 @@ def far_from_origin(ctx, base):
 
 
 def run(ctx):
-    return _scene.run_property(ctx, CFG, 2000, 30000, RULE, concrete, ASSUME, nontrivial=nontrivial, extra_lines=far_from_origin)
+    return _scene.run_property(ctx, CFG, 3500, 30000, RULE, concrete, ASSUME, nontrivial=nontrivial, extra_lines=far_from_origin)
 
 
 def replay(ctx, path):
